@@ -33,13 +33,13 @@ class Mixture(BigSMILESbase):
         self._relative_mass = None
         self._system_mass = None
         if "%" in self._raw_text:
-            rel_mass = float(self._raw_text.strip(".|%"))
+            rel_mass = float(self._raw_text[1:].strip("|%"))
             if rel_mass < 0 or rel_mass > 100:
                 raise RuntimeError(f"Mixture relative mass invalid percent {self._raw_text}.")
             self._relative_mass = float(rel_mass)
         else:
             try:
-                abs_mass = float(self._raw_text.strip(".|"))
+                abs_mass = float(self._raw_text[1:].strip("|"))
             except ValueError:
                 warn(
                     f"Mixture descriptor {self._raw_text} does not specify a valid mixture, the system will not be generable.",
